@@ -57,7 +57,8 @@ Fixpoint merge_existing (merged : list str) (mren : list (str * str)) (only : li
       let only' := only ++ [n] in
       match sassoc n mren with
       | None => merge_existing r mren only' ren
-      | Some _ => merge_existing r mren only' mren      (* use_dict_mod.rename_map = merged_rename *)
+      | Some _ => merge_existing r mren only' (fold_left (fun acc kv => sset (fst kv) (snd kv) acc) mren ren)
+                                                     (* use_dict_mod.rename_map = {**rename_map, **merged_rename} *)
       end
   end.
 
